@@ -26,6 +26,18 @@ CHECKS = {
    text='Coq theorems (Properties_C05.v): in the variable-store semantics of a call (same variable = same key) the output holds the function of the INITIAL input values whatever subset of inputs it coincides with and every non-output variable keeps its value (one and two outputs, the latter under the manual\'s q <> r restriction); the mpn add_n/sub_n/copyi/copyd/lshift/rshift C loops on one shared memory compute the pure function for every overlap the manual permits. Tie to the code: the prototype table is regenerated from gmp-h.in and EVERY permitted alias partition of the object arguments of all 122 mpz/mpq/mpf functions (377 partitions) is run: distinct variables vs the aliased arrangement on equal values under an always-moving, poisoning allocator with minimal destination allocation; every argument, return value and format rule is compared.',
    note='The store theorems are a specification of aliasing, not a pointer-level model of each C function: for mpz/mpq/mpf functions the property is decided by exhaustive enumeration of alias partitions on the implementation (values are sampled per partition). Functions with string/FILE/random-state/raw-pointer arguments are outside this harness. Trusted: translator/gen_protos.py, harness/ops_alias.c.',
    design='6/C05', technique='Coq theorems (store semantics, mpn overlap on shared memory) + exhaustive alias-partition enumeration of the regenerated prototype table against libmpir.a (metamorphic distinct-vs-aliased)'),
+ 'C06': dict(
+   text='Coq theorems (Properties_C06.v) on tables REGENERATED from mpn/generic/mp_bases.c and mp_dv_tab.c on every run: every base entry 2..62 has big_base = b^chars_per_limb < 2^64 <= b^(chars_per_limb+1) and big_base_inverted = invert_limb of the normalised big_base; every chars_per_bit_exactly is log 2/log b to within 2^-50 (real-number statement proved by Coq Interval); positional notation: the digit list of x is unique (digits < b, no leading zero, Horner gives x); the chunked generation/consumption of mpn_get_str/mpn_set_str with big_base = b^cpl equals it for every chunk size; what mpz_get_str writes (every base 2..62 and -2..-36, both alphabets) mpz_set_str reads back exactly and mpz_inp_str consumes exactly those bytes; a string whose first non-blank is not a digit of the base is rejected with -1; mpz_sizeinbase is exact for power-of-two bases. Correspondence on 25 000 cases: the byte-level parsers of mpz_set_str/mpz_inp_str/mpq_set_str incl. base-0 prefixes, white space, case rules, every byte of a 20-symbol alphabet at every position of all strings up to length 3; all bases; b^k, b^k+-1, maximal digits and long zero runs across the basecase/divide-and-conquer/power-table crossovers; borderline size estimates at powers up to 120 000 digits; buffer bound sizeinbase+2 with canaries.',
+   note='mpn_dc_get_str/mpn_dc_set_str and the power tables are tied by execution against the proved digit semantics; the "exact or one too large" clause of mpz_sizeinbase for non-power-of-two bases is tied by execution (model of the double product incl. rounding) without a theorem. C06_chars_per_bit depends on the standard library real-number axioms and classical logic (via Coq Interval; reported by Print Assumptions in the evidence). Trusted: translator/gen_consts.py.',
+   design='6/C06'),
+ 'C07': dict(
+   text='Coq theorems (Properties_C07.v): the binary algorithm of mpn_gcd_1 (common twos, odd parts, subtract-and-strip, with its fuel bound) returns the gcd for all non-zero limbs; extended Euclid with the manual\'s normalisation: g = gcd >= 0, a s + b t = g, 2 g |s| <= |b| and every listed special case (b = 0, a = 0, |a| = |b|, s = 0 only if g = |b|); lcm = |a b| / g; mpz_invert returns an inverse exactly when gcd = 1 (|n| > 1) and it lies in [0, |n|); the Kronecker symbol model takes values in {-1,0,1}, vanishes exactly when the arguments have a common factor, is periodic in the numerator and agrees with the Jacobi loop for odd positive denominators. Correspondence on 19 000 cases (all cofactors compared exactly with the implementation): Fibonacci-like pairs, huge partial quotients, equal limb counts, a = b, b | a, |b| = 2g, huge common factors, zero, negatives, all symbol classes incl. even denominators, exhaustive small symbols; operands across the HGCD/GCD_DC/GCDEXT_DC crossovers certified by the model (g | a, g | b, Bezout, bounds).',
+   note='hgcd, hgcd_appr, hgcd_reduce, Lehmer and divide-and-conquer gcdext, matrix22_mul are tied by execution only. That the reciprocity algorithm of the symbol model equals the symbol defined through quadratic residues rests on quadratic reciprocity, which is not proved here (multiplicativity is therefore not a theorem). Trusted: Coq kernel, extraction, drivers, generators.',
+   design='6/C07'),
+ 'C08': dict(
+   text='Coq theorems (Properties_C08.v): limb-by-limb Montgomery reduction (mpn_redc_1 as coded: subtract only on carry-out) returns a representative of T B^-n mod m below B^n for every odd n-limb modulus and every 2n-limb T; the Newton iteration for the inverse of an odd limb modulo 2^64; binary and fixed-window exponentiation of any width equal b^e mod m for every exponent; the even-modulus recombination r1 + m_odd ((r2 - r1) m_odd^-1 mod 2^t) equals x mod (m_odd 2^t); the mpz_powm wrapper returns b^e mod |m| for every base, non-negative exponent and non-zero modulus, the inverse power for negative exponents with invertible base, DivByZero otherwise; 0^0 = 1. Correspondence: 4400 exact cases (moduli odd, 2^k, odd*2^k with whole zero limbs, +-1; even bases with one-limb exponents around the valuation shortcut; negative/zero/huge bases; REDC inputs around the carry threshold) and moduli of 5..303 limbs (REDC-1/2/n, POWM, binvert Newton crossovers, odd limb counts) built from pairwise coprime factors and certified by the model through the Chinese remainder theorem.',
+   note='redc_2, redc_n, mpn_powm\'s window tables, mpn_powlo, mpn_binvert are tied by execution only. Trusted: Coq kernel, extraction, drivers, generators.',
+   design='6/C08'),
  'C10': dict(
    text='Coq theorems (Properties_C10.v): limb-wise and_n/andn_n/ior_n/iorn_n/nand_n/nior_n/xor_n/xnor_n equal Z.land/Z.lor/Z.lxor (and complements) of the values for every length; popcount/hamdist count set bits; scan0/scan1 return the least matching bit at or above the start or the largest bit count exactly when none exists; mpz_and/ior/xor/com built from |x|-1, limb-wise op, +1 equal Z.land/Z.lor/Z.lxor/Z.lnot on signed values for all four sign combinations and all lengths, results well-formed; mpz_tstbit transcribed from tstbit.c equals Z.testbit; setbit/clrbit/combit equal Z.setbit/Z.clearbit/xor 2^k; mpz_popcount/hamdist incl. the "infinite" answers. Correspondence on 46 000 cases aimed at negative operands with low/interior zero limbs, -1, -2^k, complement blocks, bit indices below/at/above the length.',
    note='mpz logical functions are modelled through the identities the C code uses, not each in-place loop; scan/popcount/hamdist at value level. Tied by execution. Trusted: Coq kernel, extraction, drivers, generators.',
